@@ -65,6 +65,12 @@ def pickLongest (parts : List Bytes) (required : List Bytes) : Bytes :=
 def findRegexpShortcut (parts : List Bytes) (tree : Option Re) : Bytes :=
   pickLongest parts (match tree with | some t => t.requiredLits | none => [])
 
+/-- Every literal required by `t` (the tree the shortcut was checked against) is contained in a literal
+    required by `c` (the expression that is actually compiled: `t` itself, `t` under `(?i)`, or Go's own
+    parse of the `(?i)`-prefixed text). -/
+def litsCovered (t c : Re) : Bool :=
+  t.requiredLits.all fun l => c.requiredLits.any fun l' => hasSub l' l
+
 /-- What the shortcut test of `Match` needs from a regex rule's shortcut (checked by the `c05.shortcut`
     op on Go's own parse tree): empty, or contained in a required literal. -/
 def shortcutJustified (shortcut : Bytes) (tree : Re) : Bool :=
